@@ -471,9 +471,14 @@ class LogicalType(type):  # noqa
                     return value
 
             xor = None
+            # whether a condition is met is tested on the value as it is:
+            # the 'exclude' / 'preserve' policies must not make a condition "fit"
+            throw_options = utype.Options(
+                invalid_items="throw", invalid_keys="throw", invalid_values="throw",
+            )
 
             for con in cls.args:
-                with context.enter(cls.combinator) as new_context:
+                with context.enter(cls.combinator, options=throw_options) as new_context:
                     try:
                         value = new_context.transformer(value, con)
                         if xor is None:
@@ -494,8 +499,11 @@ class LogicalType(type):  # noqa
                 context.clear_tmp_error()
 
         elif cls.combinator == "~":
+            throw_options = utype.Options(
+                invalid_items="throw", invalid_keys="throw", invalid_values="throw",
+            )
             for con in cls.args:
-                with context.enter(cls.combinator) as new_context:
+                with context.enter(cls.combinator, options=throw_options) as new_context:
                     try:
                         new_context.transformer(value, con)
                         context.handle_error(
